@@ -692,12 +692,20 @@ func (e *Exec) solveOpen(asserts []*Term, declare []*Term, upgrade bool) string 
 		// Vacuity guard: a bounded "unsat" of pc ∧ extra means something only if
 		// the pc part itself has models within the string bound; otherwise the
 		// bound is too small for this path and the unbounded encoding must decide.
-		// (a query that IS the path condition -- an unconditionally failing obligation -- is
-		// decided by the bounded encoding alone: "no model with strings up to the bound" ends the
-		// path.  Sending these to the unbounded encoding produced models that rest on opaque
-		// stub results (cast/format strings equal to a 43-byte hash) and do not replay; the
-		// price is that a violation whose witness needs longer strings than the harness bound
-		// is missed, which is what the per-harness strlen states.  Counted as bounded_unsat.)
+		if e.nPC > 0 && e.nPC == nOrig && !e.inGuard {
+			// the query IS the path condition (an unconditionally failing obligation): "no model
+			// with strings up to the bound" says nothing about longer strings -- the unbounded
+			// encoding decides whether the path exists
+			e.solver.Pop()
+			e.res.BoundTooSmall++
+			r2 := stageA(e.h.QueryTimeout)
+			if r2 != "unknown" {
+				e.res.StageA++
+			} else {
+				e.res.Inconcl = append(e.res.Inconcl, fmt.Sprintf("string bound %d admits no model of the path condition and the unbounded query is unknown at %s", e.h.StrLen, e.where()))
+			}
+			return r2
+		}
 		if e.nPC > 0 && e.nPC < nOrig && !e.inGuard {
 			e.solver.Pop()
 			e.inGuard = true
